@@ -8,7 +8,10 @@ use ppp::PartialResult;
 use std::sync::atomic::{AtomicBool, Ordering};
 
 pub fn judge(c: &Pair, st: &mut Stats) -> Verdict {
-    let (x, t) = (&c.0, &c.1);
+    crate::engine::in_arena(&c.0, |x| judge_at(x, &c.1, st))
+}
+
+fn judge_at(x: &Vec<u8>, t: &Vec<u8>, st: &mut Stats) -> Verdict {
     if !closed(x) {
         st.class("not-closed-skipped");
         return Ok(());
